@@ -180,6 +180,7 @@ func (c *Ctx) resolveKnown() {
 	for _, f := range c.Funcs {
 		c.byKey[fnKey(f)] = f
 	}
+	c.indexHelperSites()
 	// ---- fields: same number of fields with the same types at the same positions
 	for name, st := range c.structTypes() {
 		kf, ok := known.Fields[name]
@@ -202,6 +203,64 @@ func (c *Ctx) resolveKnown() {
 			}
 		}
 	}
+}
+
+// helperSites: call sites of each new helper.
+var helperSites = map[*ssa.Function][]ssa.CallInstruction{}
+
+func (c *Ctx) indexHelperSites() {
+	if len(newHelpers) == 0 {
+		return
+	}
+	for _, f := range c.Funcs {
+		for _, b := range f.Blocks {
+			for _, ins := range b.Instrs {
+				if ci, ok := ins.(ssa.CallInstruction); ok {
+					if h := ci.Common().StaticCallee(); h != nil && newHelpers[h] {
+						helperSites[h] = append(helperSites[h], ci)
+					}
+				}
+			}
+		}
+	}
+}
+
+// boundArgs returns, for a parameter of a new helper, the values passed for it at the helper's
+// call sites (nil for parameters of other functions): analyses substitute them for the parameter.
+func boundArgs(p *ssa.Parameter) []ssa.Value {
+	fn := p.Parent()
+	if fn == nil || !newHelpers[fn] {
+		return nil
+	}
+	idx := -1
+	for i, q := range fn.Params {
+		if q == p {
+			idx = i
+		}
+	}
+	var out []ssa.Value
+	for _, cs := range helperSites[fn] {
+		if a := cs.Common().Args; idx >= 0 && idx < len(a) {
+			out = append(out, a[idx])
+		}
+	}
+	return out
+}
+
+// helperResults returns, for a call of a new helper, the values the helper returns at result
+// position idx (nil if the callee is not a new helper).
+func helperResults(call ssa.CallInstruction, idx int) []ssa.Value {
+	h := call.Common().StaticCallee()
+	if h == nil || !newHelpers[h] || h.Blocks == nil {
+		return nil
+	}
+	var out []ssa.Value
+	for _, b := range h.Blocks {
+		if r, ok := b.Instrs[len(b.Instrs)-1].(*ssa.Return); ok && idx < len(r.Results) {
+			out = append(out, unspill(r, r.Results[idx]))
+		}
+	}
+	return out
 }
 
 // isNewHelper reports whether f (or the function it is nested in) was introduced after the rules
